@@ -738,6 +738,15 @@ func ShardMain(p *Prop, tier string, seed uint64, shard int, out string) int {
 			// a failure of the harness's own generator code, which makes the run inconclusive, never a violation.
 			defer func() {
 				if r := recover(); r != nil {
+					if strings.Contains(fmt.Sprint(r), "(injected)") {
+						// the value of the panic is the error this harness injected into the entropy source: a library call made
+						// while a batch was being set up read entropy and gave up on it
+						c.Fail(fmt.Sprintf("an API call that needs no entropy panicked because the process's entropy source failed: %v", r), "panic-on-entropy-fault",
+							map[string]any{"stack": firstLines(string(debug.Stack()), 30)})
+
+						return
+					}
+
 					c.Inconclusive(fmt.Sprintf("harness failure outside a monitored call: %v\n%s", r, firstLines(string(debug.Stack()), 30)))
 				}
 			}()
